@@ -255,9 +255,10 @@ type c16Exec struct {
 	lastOp    string
 	created   []ethcmn.Address // contract addresses reported by successful creation messages (generator use)
 
-	viol *core.Violation
-	step int
-	op   c16Op
+	viol  *core.Violation
+	known *core.Violation // first violation explained by an open known finding (does not end the case)
+	step  int
+	op    c16Op
 
 	// measurements
 	ntReverts int // reverted snapshots with >=1 state-changing op inside
@@ -279,8 +280,16 @@ func (x *c16Exec) fail(oracle, class, msg string) {
 	if x.inMsg || (x.conf.Mode == "prog" && x.op.Op != "foreach") {
 		label = "msg"
 	}
-	x.viol = &core.Violation{Property: "C16", Oracle: oracle, Sig: class + ":" + label,
+	v := &core.Violation{Property: "C16", Oracle: oracle, Sig: class + ":" + label,
 		Msg: fmt.Sprintf("op #%d %s: %s", x.step, x.op.enc(), msg), Step: x.step + 1}
+	if IsKnownOpen(*v) {
+		// a listed finding does not end the case: it is kept (the first one) and the case goes on
+		if x.known == nil {
+			x.known = v
+		}
+		return
+	}
+	x.viol = v
 }
 
 func c16Key(a ethcmn.Address) keys.Address { return keys.Address(append([]byte{}, a.Bytes()...)) }
